@@ -165,6 +165,7 @@ Local Notation osrc := (osrc M).
 Local Notation src_of := (src_of M).
 
 Local Notation out_inv := (StrRefine.out_inv M).
+Local Notation step_refines := (StrRefine.step_refines M TH PG OV jk M_pos TH_ge PG_pos PG_le OV_lt M_le).
 Local Notation step1 := (step1 M TH PG OV jk true).
 Local Notation exec1 := (exec1 M TH PG OV jk true).
 Local Notation abs_out := (abs_out M).
@@ -267,12 +268,18 @@ Lemma pinned_unflatten_refuted :
   exists s bytes, nulfree bytes /\ fst (unflatten1 pM pTH pPG pOV 170 false s bytes) = StOk.
 Proof. exists (abc1 false 0), [97; 98; 99]. split; [repeat constructor; discriminate|vm_compute; reflexivity]. Qed.
 
-(* F31: on the pinned tree ShrinkToFit(2^32-1) leaves a heap String whose length equals its capacity: the
-   terminator lies outside the buffer and the last character was overwritten *)
+(* F31: on the pinned tree ShrinkToFit(2^32-1) cuts the last character off a small-buffer String, and leaves a
+   heap String whose length equals its capacity (the terminator lies outside the buffer) *)
 Lemma pinned_shrink_refuted :
   exists s extra, let s' := snd (shrink_to_fit pM pTH pPG pOV 170 false s extra) in
-                  abs pM s = [97; 98; 99] /\ slen pM s' = cap pM s' /\ abs pM s' <> [97; 98; 99].
-Proof. exists (abc1 false 40), 4294967295. vm_compute. repeat split. discriminate. Qed.
+                  abs pM s = [97; 98; 99] /\ abs pM s' = [97; 98].
+Proof. exists (abc1 false 0), 4294967295. vm_compute. split; reflexivity. Qed.
+Definition long17 (fixed : bool) : str1 := ctor_pre_lit pM pTH pPG pOV 170 fixed 0 (repN 97 17).
+Lemma pinned_shrink_unterminated :
+  exists s extra, let s' := snd (shrink_to_fit pM pTH pPG pOV 170 false s extra) in
+                  is_long s' = true /\ slen pM s' = cap pM s'.
+Proof. exists (long17 false), 4294967295. vm_compute. split; reflexivity. Qed.
 Example fixed_shrink_same_witness :
-  abs pM (snd (shrink_to_fit pM pTH pPG pOV 170 true (abc1 true 40) 4294967295)) = [97; 98; 99].
-Proof. vm_compute. reflexivity. Qed.
+  abs pM (snd (shrink_to_fit pM pTH pPG pOV 170 true (abc1 true 0) 4294967295)) = [97; 98; 99] /\
+  abs pM (snd (shrink_to_fit pM pTH pPG pOV 170 true (long17 true) 4294967295)) = repN 97 17.
+Proof. vm_compute. split; reflexivity. Qed.
